@@ -1,15 +1,34 @@
 ---------------------------- MODULE C07_SyntaxTrace ----------------------------
 (* T-specification for C07: events from the real printer and parser (harness/drivers/c07.py).   *)
-(*  kind "term" | "thm" | "type" | "item": an object t printed under configuration cfg and the    *)
-(*     result r of parsing the text back (structural codec; "item" = projected proof item)       *)
-(*     RoundTrip : the text parses (no exception) and r = t                                     *)
+(*  kind "term" | "thm" | "type" | "item" | "args": an object t printed under the settings cfg   *)
+(*     = [unicode, highlight, line width] and the result r of parsing the text back (structural   *)
+(*     codec; "item" = projected proof item; "args" = the argument of a proof step for one        *)
+(*     signature of parser.parse_args, an instantiation as ["inst", type part, term part])        *)
+(*     RoundTripParses : the text parses (no exception)                                           *)
+(*     RoundTrip       : r = t  -- the WHOLE structure (for an instantiation: both parts)           *)
+(*     PrintStable     : out2 = out, when the event records the printed object of a second print   *)
+(*                       under the same settings (out: the printed object itself, a list of text /  *)
+(*                       colour / link fragments with highlighting; the text parsed is their        *)
+(*                       concatenation)                                                             *)
+(*  kind "session": ONE history of print operations performed in one process (vectors of           *)
+(*     C07_History, or a seeded long one); objs = the objects (projection), steps = the operations  *)
+(*     in order: o = name of the object, cfg, out = the printed object, outcome / r = parsing back  *)
+(*     RoundTripParses, RoundTrip : on every step                                                   *)
+(*     PrintStable     : two steps with the same object and settings have the same out              *)
 (*  kind "hist": texts produced for one (term, settings) at different points of a history       *)
 (*     PrintIsFunction : they are all the same                                                  *)
 EXTENDS Naturals, Sequences, TLC, TraceLib
+RT(x, t) == IF x.outcome # "ok" THEN {"RoundTripParses"} ELSE IF x.r = t THEN {} ELSE {"RoundTrip"}
+Again(e) == IF "out2" \in DOMAIN e /\ e.out2 # e.out THEN {"PrintStable"} ELSE {}
+SameOp(a, b) == a.o = b.o /\ a.cfg = b.cfg
+SessionClauses(e) ==
+  LET S == e.steps IN
+  UNION { RT(S[i], e.objs[S[i].o]) : i \in 1..Len(S) }
+  \cup (IF \A i \in 1..Len(S) : \A j \in 1..Len(S) : (i < j /\ SameOp(S[i], S[j])) => S[i].out = S[j].out THEN {} ELSE {"PrintStable"})
 ClausesOf(e) ==
   IF e.kind = "hist" THEN (IF \A i \in 1..Len(e.texts) : e.texts[i] = e.texts[1] THEN {} ELSE {"PrintIsFunction"})
-  ELSE IF e.outcome # "ok" THEN {"RoundTripParses"}
-  ELSE IF e.r = e.t THEN {} ELSE {"RoundTrip"}
+  ELSE IF e.kind = "session" THEN SessionClauses(e)
+  ELSE RT(e, e.t) \cup Again(e)
 TNext == LET e == Trace[l] IN TStep(e.tid, ClausesOf(e), TRUE, FALSE)
 TSpec == TInit /\ [][TNext]_l
 =============================================================================
